@@ -16,6 +16,14 @@ Operations (one `Site` each, `Site.group` says which kind of obligation it is):
   group "separator"  the constant a name is split / partitioned / searched at, the separator its components are joined with, the
                      constants the characters of a name are compared with, prefixes accumulated character by character,
                      constants replaced by the separator
+  group "order"      F-NAME.ORDER: a loop over module names sorted as plain strings (`sorted(xs)` / `xs.sort()`, followed through
+                     locals, fields, helpers, slices, reversed / enumerate: `name_list_order`) that stops (break / return), jumps
+                     (index re-positioned, e.g. by another bisect) or drops remembered names (pop / del / clear / truncation of a
+                     list fed from the loop) on a path where the current name is *not* related to the searched one (a negated
+                     startswith / relation predicate) or where dotted levels are compared. Plain string order only guarantees
+                     that an ancestor precedes its descendants: 'a' < 'a-b' < 'a.b', 'pkg' < 'pkg.a' < 'pkg.b.x'. Not armed for
+                     lists sorted with key=lambda n: n.split(".") (a pre-order of the module tree), full walks, and exits taken
+                     where the relation holds (closest parent found).
   group "extent"     component-wise comparison through zip (stops at the shorter list: an ancestor of the prefix compares equal);
                      respects boundaries, so it is not a C14 matter - C10.R2 consumes it
 
@@ -46,6 +54,13 @@ Accepted (safe) idioms, in all their spellings - locals, helpers (private predic
   * a head slice or a next-character slice kept in a local (also by pairwise tuple assignment) is judged at the comparisons of
     that local; a length kept in a field (`self._end = len(self._root)`, both assigned once, in this order, in one method) is
     that length; class-level tuples of accepted next characters are read as constants;
+  * the characters of a name kept in a list (`chars = list(name)`, `[*name]`): loops over it are loops over the name,
+    `"".join(chars[:i])` is `name[:i]`;
+  * an index that is None (`name[:None]` is the whole name), and a memo `prefix of the name -> boundary index | None` shared
+    between calls (`_memo_candidates` + verification in `_index_values_at`: created empty, only written as `D[name[:v]] = v'`
+    with boundary values, the index variable never grows);
+  * `x[len(p):]` with no test on the two strings at all, where x was reached from graph-neighbourhood calls (successors /
+    predecessors / ...): unsafe - edges relate nodes, not names;
   * names handed to callable objects (`matcher(name)`, `filter(matcher, names)`, the static type of `matcher` being a repo class
     with `__call__`) reach the parameters of `__call__`;
   * split / rsplit / partition / rpartition / count / find at '.', join of components with '.' (or of '.'-decorated components
